@@ -4,6 +4,7 @@ Taylor switch (R2), second-order enclosures for dyadic vectors down to denormals
 import sys, json, math, re
 import numpy as np
 import casadi as ca
+from harness import cas as _cas
 from harness.core import Run, run_tlc, parse_dump, main_wrap, MachineryError
 from harness.lie import rm_to_np, FnCache, so3_param
 from harness import explog as E
@@ -44,7 +45,9 @@ def f_lin(cache, kind, rep):
 
 def call(f, *a):
     r = f(*a)
-    return [np.array(x) for x in (r if isinstance(r, (list, tuple)) else [r])]
+    out = [np.array(x) for x in (r if isinstance(r, (list, tuple)) else [r])]
+    _cas.direct_probe(f, a, out)
+    return out
 
 
 def finite(run, key, arrs, tv):
